@@ -126,6 +126,7 @@ func (f *fileDecorator) fragment(node ast.Node) {
 			line := 1
 			tokenf := f.Fset.File(astf.Pos())
 			max := tokenf.Base() + tokenf.Size()
+
 			for i := tokenf.Base(); i < max; i++ {
 				pos := f.Fset.PositionFor(token.Pos(i), false)
 				if pos.Line != line {
@@ -344,10 +345,12 @@ func (f *fileDecorator) link() {
 				if frag.Empty {
 					spaceType = dst.EmptyLine
 				}
-				if foundBefore {
+				// (several newlines in a row all land on the same nodes: never replace an empty
+				// line that was found earlier by a plain new line)
+				if foundBefore && f.before[nodeBefore] < spaceType {
 					f.before[nodeBefore] = spaceType
 				}
-				if foundAfter {
+				if foundAfter && f.after[nodeAfter] < spaceType {
 					f.after[nodeAfter] = spaceType
 				}
 				continue
